@@ -4,22 +4,27 @@ From Falcon.C07 Require Import Model Spec ProofsLib ProofsA.
 Import ListNotations.
 Open Scope Z_scope.
 
-(* D: declared body; dl: bytes delivered so far; live: no exhaust()/close() so far;
-   noex: no exhaust() so far *)
-Record AInv (D dl : bytes) (live noex : bool) (st : ast) : Prop := {
+(* D: declared body; c: the part of it consumed so far (returned by reads, or skipped by
+   exhaust()), so len c is the cursor *)
+Record AInv (D c : bytes) (st : ast) : Prop := {
   ai_rem : 0 <= rem st;
-  ai_pre : exists rest, D = dl ++ rest;
-  ai_live : live = true -> D = dl ++ buf st ++ takeZ (rem st) (sbody (evs (nt st)));
-  ai_dead : live = false -> buf st = [] /\ rem st = 0;
-  ai_tell : noex = true -> pos st = len dl;
-  ai_tell_le : len dl <= pos st;
+  ai_pre : exists rest, D = c ++ rest;
+  ai_open : closed st = false -> D = c ++ buf st ++ takeZ (rem st) (sbody (evs (nt st)));
+  ai_tell : pos st = len c;
   ai_net : NInv (nt st) (rem st);
   ai_susp : gsusp (gen st) = true -> buf st = [];
   ai_pend : gen st = GInLoop false -> all_disc (evs (nt st)) = true;
   ai_closed : closed st = true -> buf st = [] /\ rem st = 0 }.
 
-Definition AStepOK D dl live noex op st r st' : Prop :=
-  AInv D (dl ++ ares_bytes r) (a_live_after live op) (a_noex_after noex op) st' /\
+(* what an operation consumes: its returned bytes; a successful exhaust() everything left *)
+Definition consumed_after (D c : bytes) (op : aop) (r : ares) : bytes :=
+  match op, r with
+  | AExhaust, ANone => D
+  | _, _ => c ++ ares_bytes r
+  end.
+
+Definition AStepOK D c op st r st' : Prop :=
+  AInv D (consumed_after D c op r) st' /\
   a_sized_ok op (ares_bytes r) = true /\
   (a_asks_for_data op = true -> r = ABytes [] -> a_eof st' = true) /\
   a_shape_ok (a_observe op (r, st')) = true /\
@@ -34,34 +39,26 @@ Proof.
   apply Z.eqb_eq in H2. destruct (buf st); [split; [reflexivity | exact H2] | discriminate].
 Qed.
 
-Lemma not_eof_live D dl live noex st : AInv D dl live noex st -> a_eof st = false -> live = true.
-Proof.
-  intros I E. destruct live; [reflexivity|]. destruct (ai_dead _ _ _ _ _ I eq_refl) as [B R].
-  rewrite (eof_dead _ B R) in E. discriminate.
-Qed.
-
-Lemma not_eof_open D dl live noex st : AInv D dl live noex st -> a_eof st = false -> closed st = false.
+Lemma not_eof_open D dl st : AInv D dl st -> a_eof st = false -> closed st = false.
 Proof.
   intros I E. destruct (closed st) eqn:C; [|reflexivity].
-  destruct (ai_closed _ _ _ _ _ I C) as [B R]. rewrite (eof_dead _ B R) in E. discriminate.
+  destruct (ai_closed _ _ _ I C) as [B R]. rewrite (eof_dead _ B R) in E. discriminate.
 Qed.
 
 (* operations that change nothing but, possibly, the generator slot *)
-Lemma AInv_same D dl live noex st st' :
-  AInv D dl live noex st ->
+Lemma AInv_same D dl st st' :
+  AInv D dl st ->
   buf st' = buf st -> rem st' = rem st -> pos st' = pos st -> closed st' = closed st ->
   nt st' = nt st -> (gsusp (gen st') = true -> gen st' = gen st) ->
-  AInv D (dl ++ []) live noex st'.
+  AInv D (dl ++ []) st'.
 Proof.
   intros I B R P C N G. rewrite app_nil_r.
-  destruct I as [I1 I2 I3 I4 I5 I6 I7 I8 I9 I10].
+  destruct I as [I1 I2 I3 I5 I7 I8 I9 I10].
   constructor.
   - rewrite R. exact I1.
   - exact I2.
-  - rewrite B, R, N. exact I3.
-  - rewrite B, R. exact I4.
+  - rewrite C, B, R, N. exact I3.
   - rewrite P. exact I5.
-  - rewrite P. exact I6.
   - rewrite N, R. exact I7.
   - intro S. rewrite B. apply I8. rewrite <- (G S). exact S.
   - intro S. rewrite N. apply I9. rewrite <- G; [exact S | rewrite S; reflexivity].
@@ -69,37 +66,35 @@ Proof.
 Qed.
 
 (* ---- readall() *)
-Lemma readall_ok D dl live noex st r st' :
-  AInv D dl live noex st -> a_readall st = (r, st') ->
-  AInv D (dl ++ ares_bytes r) live noex st' /\
+Lemma readall_ok D dl st r st' :
+  AInv D dl st -> a_readall st = (r, st') ->
+  AInv D (dl ++ ares_bytes r) st' /\
   (r = ABytes [] -> a_eof st' = true) /\
   (exists b, r = ABytes b) \/ (r = AErr ENotAllowed /\ closed st' = true /\ st' = st /\
-                               AInv D (dl ++ ares_bytes r) live noex st') .
+                               AInv D (dl ++ ares_bytes r) st') .
 Proof.
   intros I H. unfold a_readall in H.
   destruct (closed st) eqn:C.
   - injection H as <- <-. right. split; [reflexivity|]. split; [exact C|]. split; [reflexivity|].
-    apply (AInv_same _ _ _ _ st st I); auto.
+    apply (AInv_same _ _ st st I); auto.
   - left. destruct (a_eof st) eqn:E.
-    + injection H as <- <-. split; [apply (AInv_same _ _ _ _ st st I); auto|].
+    + injection H as <- <-. split; [apply (AInv_same _ _ st st I); auto|].
       split; [intros _; exact E | eexists; reflexivity].
     + destruct (readall_loop (evs (nt st)) (nt st) (rem st) (buf st)) as [[g r1] data] eqn:L.
       injection H as <- <-.
-      destruct (readall_loop_spec _ _ _ _ _ _ _ eq_refl (ai_net _ _ _ _ _ I) (ai_rem _ _ _ _ _ I) L)
+      destruct (readall_loop_spec _ _ _ _ _ _ _ eq_refl (ai_net _ _ _ I) (ai_rem _ _ _ I) L)
         as (S1 & S2 & S3 & S4).
-      subst r1. pose proof (not_eof_live _ _ _ _ _ I E) as LV. subst live.
-      pose proof (ai_live _ _ _ _ _ I eq_refl) as DL. rewrite <- S1 in DL.
+      subst r1.
+      pose proof (ai_open _ _ _ I C) as DL. rewrite <- S1 in DL.
       split; [|split; [|eexists; reflexivity]].
       * cbn [ares_bytes]. unfold set_core. constructor; cbn [buf rem pos closed gen nt].
         -- lia.
         -- eexists. rewrite DL, app_assoc. reflexivity.
         -- intros _. rewrite DL at 1. rewrite <- app_assoc. reflexivity.
-        -- discriminate.
-        -- intro NX. rewrite (ai_tell _ _ _ _ _ I NX), len_app. reflexivity.
-        -- pose proof (ai_tell_le _ _ _ _ _ I). rewrite len_app. lia.
+        -- rewrite (ai_tell _ _ _ I), len_app. reflexivity.
         -- exact S2.
         -- reflexivity.
-        -- intro G. apply S4. apply (ai_pend _ _ _ _ _ I G).
+        -- intro G. apply S4. apply (ai_pend _ _ _ I G).
         -- rewrite C. discriminate.
       * intros _. apply eof_dead; reflexivity.
 Qed.
@@ -111,33 +106,31 @@ Proof.
 Qed.
 
 (* ---- read(size) with 0 < size *)
-Lemma read_sized_ok D dl noex st n g r avail joined :
-  AInv D dl true noex st -> 0 < n -> gsusp (gen st) = false -> closed st = false ->
+Lemma read_sized_ok D dl st n g r avail joined :
+  AInv D dl st -> 0 < n -> gsusp (gen st) = false -> closed st = false ->
   read_loop true n (evs (nt st)) (nt st) (rem st) (len (buf st)) (buf st) = (g, r, avail, joined) ->
   let '(data, rest) := if avail <=? n then (joined, []) else (takeZ n joined, dropZ n joined) in
-  AInv D (dl ++ data) true noex (set_core st rest r (pos st + len data) g) /\
+  AInv D (dl ++ data) (set_core st rest r (pos st + len data) g) /\
   len data <= n /\ (data = [] -> rest = [] /\ r = 0).
 Proof.
   intros I Hn G C L.
-  destruct (read_loop_spec _ _ _ _ _ _ _ _ _ _ eq_refl (ai_net _ _ _ _ _ I) (ai_rem _ _ _ _ _ I) L)
+  destruct (read_loop_spec _ _ _ _ _ _ _ _ _ _ eq_refl (ai_net _ _ _ I) (ai_rem _ _ _ I) L)
     as (S1 & S2 & S3 & S4 & S5 & S6).
   assert (AV : avail = len joined) by lia.
-  pose proof (ai_live _ _ _ _ _ I eq_refl) as DL. rewrite <- S1 in DL.
+  pose proof (ai_open _ _ _ I C) as DL. rewrite <- S1 in DL.
   assert (K : forall data rest, joined = data ++ rest -> len data <= n ->
               (data = [] -> rest = [] /\ r = 0) ->
-              AInv D (dl ++ data) true noex (set_core st rest r (pos st + len data) g) /\
+              AInv D (dl ++ data) (set_core st rest r (pos st + len data) g) /\
               len data <= n /\ (data = [] -> rest = [] /\ r = 0)).
   { intros data rest J LD EM. split; [|split; assumption].
     unfold set_core. constructor; cbn [buf rem pos closed gen nt].
     - exact S3.
     - eexists. rewrite DL, J, <- !app_assoc. reflexivity.
     - intros _. rewrite DL, J, <- !app_assoc. reflexivity.
-    - discriminate.
-    - intro NX. rewrite (ai_tell _ _ _ _ _ I NX), len_app. reflexivity.
-    - pose proof (ai_tell_le _ _ _ _ _ I). rewrite len_app. lia.
+    - rewrite (ai_tell _ _ _ I), len_app. reflexivity.
     - exact S2.
     - rewrite G. discriminate.
-    - intro GP. apply S6. apply (ai_pend _ _ _ _ _ I GP).
+    - intro GP. apply S6. apply (ai_pend _ _ _ I GP).
     - rewrite C. discriminate. }
   destruct (Z.leb_spec avail n).
   - apply K; [rewrite app_nil_r; reflexivity | lia|].
@@ -146,10 +139,10 @@ Proof.
     intro T. apply takeZ_nil_inv in T; [|lia]. subst joined. rewrite len_nil in AV. lia.
 Qed.
 
-Lemma read_ok D dl live noex sz st r st' :
-  AInv D dl live noex st -> gsusp (gen st) && sized_read (ARead sz) = false ->
+Lemma read_ok D dl sz st r st' :
+  AInv D dl st -> gsusp (gen st) && sized_read (ARead sz) = false ->
   a_read true sz st = (r, st') ->
-  AInv D (dl ++ ares_bytes r) live noex st' /\
+  AInv D (dl ++ ares_bytes r) st' /\
   a_sized_ok (ARead sz) (ares_bytes r) = true /\
   (a_asks_for_data (ARead sz) = true -> r = ABytes [] -> a_eof st' = true) /\
   ((exists b, r = ABytes b) \/ (r = AErr ENotAllowed /\ closed st' = true)) /\
@@ -157,7 +150,7 @@ Lemma read_ok D dl live noex sz st r st' :
 Proof.
   intros I DS H. unfold a_read in H.
   assert (RA : a_readall st = (r, st') ->
-    AInv D (dl ++ ares_bytes r) live noex st' /\
+    AInv D (dl ++ ares_bytes r) st' /\
     (r = ABytes [] -> a_eof st' = true) /\
     ((exists b, r = ABytes b) \/ (r = AErr ENotAllowed /\ closed st' = true)) /\
     gen st' = gen st).
@@ -165,15 +158,15 @@ Proof.
     { unfold a_readall in HA. destruct (closed st); [injection HA as <- <-; reflexivity|].
       destruct (a_eof st); [injection HA as <- <-; reflexivity|].
       destruct (readall_loop _ _ _ _) as [[? ?] ?]. injection HA as <- <-. reflexivity. }
-    destruct (readall_ok _ _ _ _ _ _ _ I HA) as [(A1 & A2 & A3) | (A1 & A2 & A3 & A4)].
+    destruct (readall_ok _ _ _ _ _ I HA) as [(A1 & A2 & A3) | (A1 & A2 & A3 & A4)].
     - split; [exact A1|]. split; [exact A2|]. split; [left; exact A3 | exact GE].
     - split; [exact A4|]. split; [rewrite A1; discriminate|]. split; [right; split; assumption | exact GE]. }
   destruct (closed st) eqn:C.
-  - injection H as <- <-. split; [apply (AInv_same _ _ _ _ st st I); auto|].
+  - injection H as <- <-. split; [apply (AInv_same _ _ st st I); auto|].
     split; [apply a_sized_nil|].
     split; [discriminate|]. split; [right; split; [reflexivity | exact C] | reflexivity].
   - destruct (a_eof st) eqn:E.
-    + injection H as <- <-. split; [apply (AInv_same _ _ _ _ st st I); auto|].
+    + injection H as <- <-. split; [apply (AInv_same _ _ st st I); auto|].
       split; [apply a_sized_nil|].
       split; [intros _ _; exact E|]. split; [left; eexists; reflexivity | reflexivity].
     + destruct sz as [n|].
@@ -181,18 +174,17 @@ Proof.
         -- destruct (RA H) as (R1 & R2 & R3 & R4). split; [exact R1|].
            split; [cbn; subst n; reflexivity|]. split; [intros _; exact R2|]. split; assumption.
         -- destruct (Z.leb_spec n 0).
-           ++ injection H as <- <-. split; [apply (AInv_same _ _ _ _ st st I); auto|].
+           ++ injection H as <- <-. split; [apply (AInv_same _ _ st st I); auto|].
               split; [apply a_sized_nil|].
               split; [|split; [left; eexists; reflexivity | reflexivity]].
               cbn. destruct (Z.eqb_spec n (-1)); [contradiction|]. destruct (Z.ltb_spec 0 n); [lia|discriminate].
-           ++ pose proof (not_eof_live _ _ _ _ _ I E) as LV. subst live.
-              assert (G : gsusp (gen st) = false).
+           ++ assert (G : gsusp (gen st) = false).
               { destruct (gsusp (gen st)); [|reflexivity]. cbn in DS.
                 destruct (Z.eqb_spec n (-1)); [contradiction|]. destruct (Z.ltb_spec 0 n); [discriminate | lia]. }
               destruct (read_loop true n (evs (nt st)) (nt st) (rem st) (len (buf st)) (buf st))
                 as [[[g r1] avail] joined] eqn:L.
               assert (Hn : 0 < n) by lia.
-              pose proof (read_sized_ok _ _ _ _ _ _ _ _ _ I Hn G C L) as K.
+              pose proof (read_sized_ok _ _ _ _ _ _ _ _ I Hn G C L) as K.
               destruct (if avail <=? n then (joined, []) else (takeZ n joined, dropZ n joined))
                 as [data rest].
               injection H as <- <-. destruct K as (K1 & K2 & K3). cbn [ares_bytes].
@@ -205,35 +197,31 @@ Proof.
 Qed.
 
 (* ---- the generator *)
-Lemma resume_ok D dl live noex st r0 r st' :
+Lemma resume_ok D dl st r0 r st' :
   0 <= r0 -> NInv (nt st) r0 -> buf st = [] ->
-  (live = true -> D = dl ++ takeZ r0 (sbody (evs (nt st)))) ->
-  (live = false -> r0 = 0) -> (exists rest, D = dl ++ rest) ->
-  (noex = true -> pos st = len dl) -> len dl <= pos st -> (closed st = true -> r0 = 0) ->
+  (closed st = false -> D = dl ++ takeZ r0 (sbody (evs (nt st)))) ->
+  (exists rest, D = dl ++ rest) ->
+  pos st = len dl -> (closed st = true -> r0 = 0) ->
   a_resume_loop st r0 = (r, st') ->
-  AInv D (dl ++ ares_bytes r) live noex st' /\
+  AInv D (dl ++ ares_bytes r) st' /\
   ((r = AStop /\ gen st' = GDone) \/ (exists x c m, r = ABytes (x :: c) /\ gen st' = GInLoop m)).
 Proof.
-  intros H0 HN HB HL HD HP HT HTL HC H. unfold a_resume_loop in H.
+  intros H0 HN HB HL HP HT HC H. unfold a_resume_loop in H.
   destruct (iter_loop (evs (nt st)) (nt st) r0 (pos st)) as [[[y g] r'] p'] eqn:L.
   destruct (iter_loop_spec _ _ _ _ _ _ _ _ eq_refl HN H0 L) as (S1 & S2 & S3 & S4).
   destruct y as [[c more]|].
   - injection H as <- <-. destruct S4 as (Y1 & Y2 & Y3 & Y4).
-    assert (LV : live = true).
-    { destruct live; [reflexivity|]. rewrite (HD eq_refl) in Y1. rewrite (takeZ_nonpos 0) in Y1 by lia.
-      apply app_eq_nil in Y1 as [Y1 _]. contradiction. }
-    subst live. specialize (HL eq_refl). rewrite <- Y1 in HL.
     assert (CO : closed st = false).
-    { destruct (closed st); [|reflexivity]. rewrite (HC eq_refl) in Y1. rewrite (takeZ_nonpos 0) in Y1 by lia.
+    { destruct (closed st); [|reflexivity]. rewrite (HC eq_refl) in Y1.
+      rewrite (takeZ_nonpos 0) in Y1 by lia.
       apply app_eq_nil in Y1 as [Y1 _]. contradiction. }
+    specialize (HL CO). rewrite <- Y1 in HL.
     split.
     + cbn [ares_bytes]. constructor; cbn [buf rem pos closed gen nt].
       * exact S2.
       * eexists. rewrite HL, <- app_assoc. reflexivity.
       * intros _. rewrite HB. cbn [app]. rewrite HL, <- app_assoc. reflexivity.
-      * discriminate.
-      * intro NX. rewrite Y3, (HT NX), len_app. reflexivity.
-      * rewrite Y3, len_app. lia.
+      * rewrite Y3, HT, len_app. reflexivity.
       * exact S1.
       * intros _. exact HB.
       * intros [= ->]. apply Y4. reflexivity.
@@ -244,20 +232,18 @@ Proof.
     cbn [ares_bytes]. rewrite app_nil_r. constructor; cbn [buf rem pos closed gen nt].
     + lia.
     + exact HP.
-    + intro LV. rewrite HB. cbn [app]. rewrite (takeZ_nonpos 0), app_nil_r by lia.
-      rewrite (HL LV), Y1, app_nil_r. reflexivity.
-    + intros _. split; [exact HB | reflexivity].
+    + intro CO. rewrite HB. cbn [app]. rewrite (takeZ_nonpos 0), app_nil_r by lia.
+      rewrite (HL CO), Y1, app_nil_r. reflexivity.
     + exact HT.
-    + exact HTL.
     + exact S1.
     + discriminate.
     + discriminate.
     + intros _. split; [exact HB | reflexivity].
 Qed.
 
-Lemma next_ok D dl live noex st r st' :
-  AInv D dl live noex st -> a_next st = (r, st') ->
-  AInv D (dl ++ ares_bytes r) live noex st' /\
+Lemma next_ok D dl st r st' :
+  AInv D dl st -> a_next st = (r, st') ->
+  AInv D (dl ++ ares_bytes r) st' /\
   a_shape_ok (a_observe ANext (r, st')) = true /\
   gsusp (gen st') = susp_after (gsusp (gen st)) ANext r.
 Proof.
@@ -272,65 +258,59 @@ Proof.
            started := true; gen := GAfterBuf; nt := nt st |})
      else a_resume_loop {| buf := buf st; rem := rem st; pos := pos st; closed := closed st;
                            started := true; gen := gen st; nt := nt st |} (rem st)) = (r, st') ->
-    AInv D (dl ++ ares_bytes r) live noex st' /\
+    AInv D (dl ++ ares_bytes r) st' /\
     a_shape_ok (a_observe ANext (r, st')) = true /\
     gsusp (gen st') = susp_after (gsusp (gen st)) ANext r).
   { intros GF HH.
     assert (DONE : forall r0, (r0 = AStop \/ r0 = AErr ENotAllowed) ->
-      AInv D (dl ++ ares_bytes r0) live noex (set_gen st GDone) /\
+      AInv D (dl ++ ares_bytes r0) (set_gen st GDone) /\
       a_shape_ok (a_observe ANext (r0, set_gen st GDone)) = true /\
       gsusp (gen (set_gen st GDone)) = susp_after (gsusp (gen st)) ANext r0).
     { intros r0 R0. split; [|split].
       - replace (ares_bytes r0) with (@nil N) by (destruct R0 as [-> | ->]; reflexivity).
-        apply (AInv_same _ _ _ _ st _ I); try reflexivity. discriminate.
+        apply (AInv_same _ _ st _ I); try reflexivity. discriminate.
       - destruct R0 as [-> | ->]; reflexivity.
       - destruct R0 as [-> | ->]; reflexivity. }
     destruct (closed st) eqn:C; [injection HH as <- <-; apply DONE; right; reflexivity|].
     destruct (a_eof st) eqn:E; [injection HH as <- <-; apply DONE; left; reflexivity|].
     destruct (started st) eqn:ST; [injection HH as <- <-; apply DONE; right; reflexivity|].
-    pose proof (not_eof_live _ _ _ _ _ I E) as LV. subst live.
+    pose proof (ai_open _ _ _ I C) as DL.
     destruct (buf st) as [|x b] eqn:B; cbn [nonempty] in HH.
-    - assert (RO := resume_ok D dl true noex
-        {| buf := []; rem := rem st; pos := pos st; closed := closed st; started := true;
+    - assert (RO := resume_ok D dl
+        {| buf := []; rem := rem st; pos := pos st; closed := false; started := true;
            gen := gen st; nt := nt st |} (rem st) r st').
-      cbn [buf rem pos closed gen nt] in RO. rewrite C in RO.
+      cbn [buf rem pos closed gen nt] in RO.
       destruct RO as (R1 & R2); try assumption.
-      + exact (ai_rem _ _ _ _ _ I).
-      + exact (ai_net _ _ _ _ _ I).
+      + exact (ai_rem _ _ _ I).
+      + exact (ai_net _ _ _ I).
       + reflexivity.
-      + intros _. pose proof (ai_live _ _ _ _ _ I eq_refl) as DL. rewrite B in DL. exact DL.
-      + discriminate.
-      + exact (ai_pre _ _ _ _ _ I).
-      + exact (ai_tell _ _ _ _ _ I).
-      + exact (ai_tell_le _ _ _ _ _ I).
+      + intros _. exact DL.
+      + exact (ai_pre _ _ _ I).
+      + exact (ai_tell _ _ _ I).
       + discriminate.
       + split; [exact R1|].
         destruct R2 as [(-> & G2) | (x & c & m & -> & G2)]; rewrite G2; split; reflexivity.
     - injection HH as <- <-. split; [|split; reflexivity].
       cbn [ares_bytes]. constructor; cbn [buf rem pos closed gen nt].
-      + exact (ai_rem _ _ _ _ _ I).
-      + pose proof (ai_live _ _ _ _ _ I eq_refl) as DL. rewrite B in DL.
-        eexists. rewrite DL, <- app_assoc. reflexivity.
-      + intros _. pose proof (ai_live _ _ _ _ _ I eq_refl) as DL. rewrite B in DL.
-        rewrite DL, <- app_assoc. reflexivity.
-      + discriminate.
-      + intro NX. rewrite (ai_tell _ _ _ _ _ I NX), len_app. reflexivity.
-      + pose proof (ai_tell_le _ _ _ _ _ I). rewrite len_app. lia.
-      + exact (ai_net _ _ _ _ _ I).
+      + exact (ai_rem _ _ _ I).
+      + eexists. rewrite DL, <- app_assoc. reflexivity.
+      + intros _. rewrite DL, <- app_assoc. reflexivity.
+      + rewrite (ai_tell _ _ _ I), len_app. reflexivity.
+      + exact (ai_net _ _ _ I).
       + reflexivity.
       + discriminate.
       + discriminate. }
   assert (RES : forall r0, gsusp (gen st) = true ->
     0 <= r0 -> NInv (nt st) r0 ->
-    (live = true -> D = dl ++ takeZ r0 (sbody (evs (nt st)))) ->
-    (live = false -> r0 = 0) -> (closed st = true -> r0 = 0) ->
+    (closed st = false -> D = dl ++ takeZ r0 (sbody (evs (nt st)))) ->
+    (closed st = true -> r0 = 0) ->
     a_resume_loop st r0 = (r, st') ->
-    AInv D (dl ++ ares_bytes r) live noex st' /\
+    AInv D (dl ++ ares_bytes r) st' /\
     a_shape_ok (a_observe ANext (r, st')) = true /\
     gsusp (gen st') = susp_after (gsusp (gen st)) ANext r).
-  { intros r0 SU P0 PN PL PD PC HH.
-    destruct (resume_ok D dl live noex st r0 r st' P0 PN (ai_susp _ _ _ _ _ I SU) PL PD
-                (ai_pre _ _ _ _ _ I) (ai_tell _ _ _ _ _ I) (ai_tell_le _ _ _ _ _ I) PC HH)
+  { intros r0 SU P0 PN PL PC HH.
+    destruct (resume_ok D dl st r0 r st' P0 PN (ai_susp _ _ _ I SU) PL
+                (ai_pre _ _ _ I) (ai_tell _ _ _ I) PC HH)
       as (R1 & R2).
     split; [exact R1|].
     destruct R2 as [(-> & G2) | (x & c & m & -> & G2)]; rewrite G2; split; reflexivity. }
@@ -338,24 +318,22 @@ Proof.
   - apply FRESH; [left; reflexivity | exact H].
   - apply FRESH; [right; reflexivity | exact H].
   - apply (RES (rem st)); try reflexivity; try exact H.
-    + exact (ai_rem _ _ _ _ _ I).
-    + exact (ai_net _ _ _ _ _ I).
-    + intro LV. rewrite (ai_live _ _ _ _ _ I LV).
-      rewrite (ai_susp _ _ _ _ _ I); [reflexivity | rewrite G; reflexivity].
-    + intro LV. exact (proj2 (ai_dead _ _ _ _ _ I LV)).
-    + intro C. exact (proj2 (ai_closed _ _ _ _ _ I C)).
-  - assert (BE : buf st = []) by (apply (ai_susp _ _ _ _ _ I); rewrite G; reflexivity).
+    + exact (ai_rem _ _ _ I).
+    + exact (ai_net _ _ _ I).
+    + intro CO. rewrite (ai_open _ _ _ I CO).
+      rewrite (ai_susp _ _ _ I); [reflexivity | rewrite G; reflexivity].
+    + intro C. exact (proj2 (ai_closed _ _ _ I C)).
+  - assert (BE : buf st = []) by (apply (ai_susp _ _ _ I); rewrite G; reflexivity).
     destruct more.
     + apply (RES (rem st)); try reflexivity; try exact H.
-      * exact (ai_rem _ _ _ _ _ I).
-      * exact (ai_net _ _ _ _ _ I).
-      * intro LV. rewrite (ai_live _ _ _ _ _ I LV), BE. reflexivity.
-      * intro LV. exact (proj2 (ai_dead _ _ _ _ _ I LV)).
-      * intro C. exact (proj2 (ai_closed _ _ _ _ _ I C)).
+      * exact (ai_rem _ _ _ I).
+      * exact (ai_net _ _ _ I).
+      * intro CO. rewrite (ai_open _ _ _ I CO), BE. reflexivity.
+      * intro C. exact (proj2 (ai_closed _ _ _ I C)).
     + apply (RES 0); try reflexivity; try exact H; try lia.
-      * exact (NInv_zero _ _ (ai_net _ _ _ _ _ I)).
-      * intro LV. rewrite (ai_live _ _ _ _ _ I LV), BE.
-        rewrite (sbody_all_disc _ (ai_pend _ _ _ _ _ I G)), !takeZ_nil. reflexivity.
+      * exact (NInv_zero _ _ (ai_net _ _ _ I)).
+      * intro CO. rewrite (ai_open _ _ _ I CO), BE.
+        rewrite (sbody_all_disc _ (ai_pend _ _ _ I G)), !takeZ_nil. reflexivity.
   - injection H as <- <-. split; [|split; [reflexivity | rewrite G; reflexivity]].
-    apply (AInv_same _ _ _ _ st st I); auto.
+    apply (AInv_same _ _ st st I); auto.
 Qed.
